@@ -77,7 +77,20 @@ func main() {
 	tierS := flag.String("tier", "", "quick or thorough")
 	replay := flag.String("replay", "", "replay file")
 	budget := flag.Int("budget", 0, "wall-clock budget in seconds (0: tier default)")
+	sub := flag.String("sub", "", "internal: run the sub mode of a property in this (tagged) build and print JSON")
 	flag.CommandLine.Parse(reorder(os.Args[1:]))
+	if *sub != "" {
+		f, ok := props.SubModes[*sub]
+		if !ok {
+			fmt.Fprintln(os.Stderr, "no sub mode for", *sub)
+			os.Exit(2)
+		}
+		r := f(flag.Args())
+		r.Tags = fmt.Sprintf("tiny=%v debug=%v", props.BuildTiny, props.BuildDebug)
+		b, _ := json.Marshal(r)
+		os.Stdout.Write(b)
+		os.Exit(0)
+	}
 	if flag.NArg() < 1 {
 		fmt.Fprintln(os.Stderr, "usage: check <Cxx> [--tier quick|thorough] [--replay file]")
 		os.Exit(2)
